@@ -7,6 +7,8 @@ pub(crate) mod phys;
 pub(crate) mod session;
 pub(crate) mod shutdown;
 pub(crate) mod slice_ext;
+#[cfg(dnp3_verif)]
+pub(crate) mod verif_trace;
 pub(crate) struct Smallest<T>
 where
     T: Copy + PartialOrd,
